@@ -78,7 +78,7 @@ fn c12_chunks40() {
     chunking::<40>();
 }
 
-//@ harness: c12_chunks64 props=C12,C01,C07 tier=quick class=functional_rel covers=6 mem=16 timeout=1500 est=120
+//@ harness: c12_chunks64 props=C12,C01,C02,C07 tier=quick class=functional_rel covers=6 mem=16 timeout=1500 est=120
 //@ bounds: every payload of length 0..=64 bytes, arbitrary contents (release semantics)
 #[kani::proof]
 #[kani::unwind(66)]
